@@ -322,7 +322,7 @@ def TextOf (T : LexTables) (t : Token) (raw : List Char) : Prop :=
 def StepOK (T : LexTables) (L0 : Loc) (w rest : List Char) : Step → Prop
   | .tok t s1 r1 => ∃ w1, rest = w1 ++ r1 ∧ t.loc = L0 ∧ t.kind ≠ .eof ∧ TextOf T t (w ++ w1) ∧
       Fresh s1 (advLoc L0 (w ++ w1)) r1
-  | .fail _ => True
+  | .fail e => e.2 ≠ "fuel"
   | .skip _ _ => False
   | .eof _ => False
 
@@ -363,7 +363,7 @@ theorem stepOK_numberState {T L0 w s rest} (cc : CharClass) (h : Good L0 w s res
   generalize scanNumber cc T s rest = a at *
   obtain ⟨b, s1, r1⟩ := a
   cases b with
-  | false => trivial
+  | false => exact (by decide : ("badnumber" : String) ≠ "fuel")
   | true => exact StepOK.of_ext e fun w' g => stepOK_emit .number (by decide) g
 
 theorem stepOK_dotTail {T L0 w s rest} (h : Good L0 w s rest) :
@@ -626,194 +626,7 @@ theorem stepOK_number_digit {L0 w s c cs} (cc : CharClass) (hc : '0' ≤ c ∧ c
             | none => (true, s4, r4)) = res at *
   obtain ⟨b, s5, r5⟩ := res
   cases b with
-  | false => trivial
+  | false => exact (by decide : ("badnumber" : String) ≠ "fuel")
   | true => exact StepOK.of_ext e2 fun w' g => stepOK_emit .number (by decide) g
-
-/-! ### one step of `root` -/
-
-/-- what one `root` step does to the input `rest` at location `L` -/
-def RootOK (cc : CharClass) (T : LexTables) (L : Loc) (rest : List Char) : Step → Prop
-  | .tok t s1 r1 => ∃ raw, raw ≠ [] ∧ rest = raw ++ r1 ∧ (∀ c, raw.head? = some c → cc.isSpace c = false) ∧
-      t.loc = L ∧ t.kind ≠ .eof ∧ TextOf T t raw ∧ Fresh s1 (advLoc L raw) r1
-  | .skip s1 r1 => ∃ c, rest = c :: r1 ∧ cc.isSpace c = true ∧ Fresh s1 (Loc.adv L c) r1
-  | .eof t => rest = [] ∧ t.kind = .eof
-  | .fail _ => True
-
-theorem RootOK.of_stepOK {cc : CharClass} {T L c cs st} (hsp : cc.isSpace c = false)
-    (h : StepOK T L [c] cs st) : RootOK cc T L (c :: cs) st := by
-  cases st with
-  | tok t s1 r1 =>
-    obtain ⟨w1, e, hl, hk, ht, hf⟩ := h
-    exact ⟨c :: w1, by simp, by simp [e], by intro x hx; simp at hx; subst hx; exact hsp, hl, hk,
-      by simpa using ht, by simpa using hf⟩
-  | fail e => trivial
-  | skip _ _ => exact h.elim
-  | eof _ => exact h.elim
-
-theorem root_spec (cc : CharClass) (s : LState) (L : Loc) (rest : List Char) (h : Fresh s L rest) :
-    RootOK cc LexTables.std L rest (root cc LexTables.std s rest) := by
-  cases rest with
-  | nil => exact ⟨rfl, rfl⟩
-  | cons c cs =>
-    have g0 : Good L [] s (c :: cs) := h.good
-    have g1 : Good L [c] (s.adv c) cs := by simpa using good_adv g0
-    unfold root
-    simp only
-    split
-    · -- white space
-      rename_i hsp
-      exact ⟨c, rfl, hsp, by simpa using fresh_ignore g1⟩
-    rename_i hsp
-    have hsp : cc.isSpace c = false := by simpa using hsp
-    refine RootOK.of_stepOK hsp ?_
-    split
-    · -- string literal
-      cases hscan : scanString LexTables.std c .normal (s.adv c) cs with
-      | error e => trivial
-      | ok o =>
-        obtain ⟨s2, r2⟩ := o
-        obtain ⟨w1, e, g2⟩ := ext_scanString LexTables.std c cs _ _ _ _ g1 hscan
-        simp only at e g2 ⊢
-        cases hun : unescape LexTables.std s2.text with
-        | error m => trivial
-        | ok str =>
-          simp only
-          exact ⟨w1, e, g2.start, by simp [mkTok],
-            Or.inr (Or.inl ⟨rfl, str, by rw [← text_of_good g2]; exact hun, rfl⟩),
-            by simpa using fresh_ignore g2⟩
-    split
-    · -- ASCII digit
-      rename_i hd
-      simp only [backup_adv]
-      exact stepOK_number_digit cc hd (good_unread g0)
-    split
-    · -- `?`, `?.`
-      cases cs with
-      | nil =>
-        simp only [peek_nil]
-        have : ¬ ((none : Option Char) = some '.') := by simp
-        simp only [this, if_false]
-        exact stepOK_emit .operator (by decide) (good_eof g1 _ rfl rfl)
-      | cons c2 cs2 =>
-        have hp := peek_cons (s.adv c) c2 cs2
-        generalize peek (s.adv c) (c2 :: cs2) = pk at hp ⊢
-        subst hp
-        simp only
-        by_cases hq : (some c2 = some '.')
-        · rw [if_pos hq]
-          exact StepOK.cons (stepOK_nilsafeState (good_unread g1))
-        · rw [if_neg hq]
-          exact stepOK_emit .operator (by decide) (good_unread g1)
-    split
-    · exact stepOK_emit .bracket (by decide) g1
-    split
-    · exact stepOK_emit .bracket (by decide) g1
-    split
-    · exact stepOK_emit .operator (by decide) g1
-    split
-    · exact StepOK.of_ext (ext_accept LexTables.std.dblSecond g1) fun w' g => stepOK_emit .operator (by decide) g
-    split
-    · simp only [backup_adv]
-      exact stepOK_dotState cc (good_unread g0)
-    split
-    · rename_i ha
-      simp only [backup_adv]
-      exact stepOK_identifierState cc rfl ha (good_unread g0)
-    · trivial
-
-/-! ### the loop -/
-
-/-- `Laid cc T L input toks`: the tokens lie in `input` (which starts at location `L`) one after the other,
-separated by runs of white space; each token's location is the position of the first character of its
-raw text; the last token is EOF -/
-inductive Laid (cc : CharClass) (T : LexTables) : Loc → List Char → List Token → Prop
-  | eof (L : Loc) (trail : List Char) (t : Token) (hws : ∀ c ∈ trail, cc.isSpace c = true)
-      (hk : t.kind = .eof) : Laid cc T L trail [t]
-  | tok (L : Loc) (gap raw rest : List Char) (t : Token) (ts : List Token)
-      (hws : ∀ c ∈ gap, cc.isSpace c = true) (hne : raw ≠ [])
-      (hfirst : ∀ c, raw.head? = some c → cc.isSpace c = false)
-      (hk : t.kind ≠ .eof) (hloc : t.loc = advLoc L gap) (htext : TextOf T t raw)
-      (htail : Laid cc T (advLoc L (gap ++ raw)) rest ts) : Laid cc T L (gap ++ raw ++ rest) (t :: ts)
-
-theorem Laid.cons_space {cc : CharClass} {T L c rest toks} (hc : cc.isSpace c = true)
-    (h : Laid cc T (Loc.adv L c) rest toks) : Laid cc T L (c :: rest) toks := by
-  generalize hL : Loc.adv L c = L' at h
-  cases h with
-  | eof _ _ t hws hk =>
-    exact Laid.eof L (c :: rest) t (by intro x hx; simp at hx; rcases hx with rfl | hx; exact hc; exact hws x hx) hk
-  | tok _ gap raw rest' t ts hws hne hfirst hk hloc htext htail =>
-    subst hL
-    have := Laid.tok (cc := cc) (T := T) L (c :: gap) raw rest' t ts
-      (by intro x hx; simp at hx; rcases hx with rfl | hx; exact hc; exact hws x hx) hne hfirst hk
-      (by simpa using hloc) htext (by simpa using htail)
-    simpa using this
-
-theorem lexLoop_laid (cc : CharClass) : ∀ (fuel : Nat) (s : LState) (L : Loc) (rest : List Char) (toks : List Token),
-    Fresh s L rest → lexLoop cc LexTables.std fuel s rest = .ok toks → Laid cc LexTables.std L rest toks := by
-  intro fuel
-  induction fuel with
-  | zero => intro s L rest toks _ h; simp [lexLoop] at h
-  | succ f ih =>
-    intro s L rest toks hf h
-    have hr := root_spec cc s L rest hf
-    simp only [lexLoop] at h
-    cases hstep : root cc LexTables.std s rest with
-    | tok t s1 r1 =>
-      rw [hstep] at h hr
-      obtain ⟨raw, hne, e, hfirst, hl, hk, ht, hfr⟩ := hr
-      simp only at h
-      cases hrec : lexLoop cc LexTables.std f s1 r1 with
-      | error e' => rw [hrec] at h; cases h
-      | ok ts =>
-        rw [hrec] at h
-        cases h
-        have := Laid.tok (cc := cc) (T := LexTables.std) L [] raw r1 t ts (by simp) hne hfirst hk (by simpa using hl) ht
-          (by simpa using ih s1 _ r1 ts hfr hrec)
-        simpa [e] using this
-    | skip s1 r1 =>
-      rw [hstep] at h hr
-      obtain ⟨c, e, hc, hfr⟩ := hr
-      subst e
-      exact Laid.cons_space hc (ih s1 _ r1 toks hfr h)
-    | eof t =>
-      rw [hstep] at h hr
-      cases h
-      obtain ⟨e, hk⟩ := hr
-      subst e
-      exact Laid.eof L [] t (by simp) hk
-    | fail e =>
-      rw [hstep] at h
-      cases h
-
-theorem fresh_init (input : List Char) : Fresh {} ⟨1, 0⟩ input := ⟨rfl, rfl, fun _ => rfl⟩
-
-theorem lexChars_laid (cc : CharClass) (input : List Char) (toks : List Token)
-    (h : lexChars cc LexTables.std input = .ok toks) : Laid cc LexTables.std ⟨1, 0⟩ input toks :=
-  lexLoop_laid cc _ _ _ _ _ (fresh_init input) h
-
-/-- every token but EOF sits at the position of the first character of its raw text -/
-theorem Laid.positions {cc : CharClass} {T L input toks} (h : Laid cc T L input toks) :
-    ∀ t ∈ toks, t.kind ≠ .eof → ∃ pre raw post, input = pre ++ raw ++ post ∧ raw ≠ [] ∧
-      (∀ c, raw.head? = some c → cc.isSpace c = false) ∧ t.loc = advLoc L pre ∧ TextOf T t raw := by
-  induction h with
-  | eof L trail t hws hk => intro t' ht' hk'; simp at ht'; subst ht'; exact absurd hk hk'
-  | tok L gap raw rest t ts hws hne hfirst hk hloc htext htail ih =>
-    intro t' ht' hk'
-    simp only [List.mem_cons] at ht'
-    rcases ht' with rfl | ht'
-    · exact ⟨gap, raw, rest, rfl, hne, hfirst, hloc, htext⟩
-    · obtain ⟨pre, raw', post, e, hne', hf', hl', htx'⟩ := ih t' ht' hk'
-      exact ⟨gap ++ raw ++ pre, raw', post, by rw [e]; simp [List.append_assoc], hne', hf',
-        by rw [hl']; simp [advLoc_append], htx'⟩
-
-/-- the last token is EOF and it is the only one -/
-theorem Laid.last_eof {cc : CharClass} {T L input toks} (h : Laid cc T L input toks) :
-    ∃ ts t, toks = ts ++ [t] ∧ t.kind = .eof ∧ ∀ x ∈ ts, x.kind ≠ .eof := by
-  induction h with
-  | eof L trail t hws hk => exact ⟨[], t, rfl, hk, by simp⟩
-  | tok L gap raw rest t ts hws hne hfirst hk hloc htext htail ih =>
-    obtain ⟨ts', t', e, hk', hall⟩ := ih
-    exact ⟨t :: ts', t', by simp [e], hk', by
-      intro x hx; simp only [List.mem_cons] at hx; rcases hx with rfl | hx; exact hk; exact hall x hx⟩
 
 end ExprModel.Lex
